@@ -87,44 +87,14 @@ theorem weakref_in_slots_iff (c : Case) (hn : WFNames c) (hb : WFBody c) (hl : W
       · exact absurd h1 (layout_not_cprop c hb _ (by decide))
       · exact absurd h1.1 (by decide)
 
-/-- the weakref rule fires exactly when `weakref_slot` is on, unless the body's own `__slots__` already lists
-    `__weakref__` (K08b) -/
-theorem addsWeakref_eq (c : Case) (hn : WFNames c) (hl : WFLayout c) (hwi : weakrefInherited c = false)
-    (hk : weakrefDropped c = false) : addsWeakref c = c.weakrefSlot := by
+/-- the weakref rule fires exactly when `weakref_slot` is on and no class of the MRO provides `__weakref__` -/
+theorem addsWeakref_eq (c : Case) (hn : WFNames c) (hwi : weakrefInherited c = false) :
+    addsWeakref c = c.weakrefSlot := by
   unfold addsWeakref
   rw [hwi, special_not_attr c hn "__weakref__" (by decide)]
-  cases hw : c.weakrefSlot with
-  | false => rfl
-  | true =>
-    have : (resolvedSlots c).contains "__weakref__" = false := by
-      unfold resolvedSlots
-      cases hbs : c.bodySlots with
-      | some s =>
-        unfold weakrefDropped at hk
-        rw [hw, hbs, hwi] at hk
-        simpa using hk
-      | none =>
-        dsimp only
-        cases hf : c.mro.find? (·.slots.isSome) with
-        | none => rfl
-        | some b =>
-          dsimp only
-          have hbm : b ∈ c.mro := List.mem_of_find?_eq_some hf
-          cases hc : (b.slots.getD []).contains "__weakref__" with
-          | false => rfl
-          | true =>
-            have hs : baseHasSlot "__weakref__" b = true := by
-              unfold baseHasSlot
-              cases hsl : b.slots with
-              | none => rw [hsl] at hc; simp at hc
-              | some s => rw [hsl] at hc; simpa using hc
-            have := hl.weak b hbm hs
-            have : weakrefInherited c = true := List.any_eq_true.2 ⟨b, hbm, this⟩
-            rw [hwi] at this; cases this
-    rw [this]; rfl
+  cases c.weakrefSlot <;> rfl
 
-theorem weakrefable_iff (c : Case) (hn : WFNames c) (hb : WFBody c) (hl : WFLayout c)
-    (hk : weakrefDropped c = false) :
+theorem weakrefable_iff (c : Case) (hn : WFNames c) (hb : WFBody c) (hl : WFLayout c) :
     instWeakrefable c = (c.weakrefSlot || c.mro.any (·.hasWeakref)) := by
   unfold instWeakrefable
   cases hwi : weakrefInherited c with
@@ -133,7 +103,7 @@ theorem weakrefable_iff (c : Case) (hn : WFNames c) (hb : WFBody c) (hl : WFLayo
     rw [this]; simp
   | false =>
     have : c.mro.any (·.hasWeakref) = false := hwi
-    rw [weakref_in_slots_iff c hn hb hl hwi, addsWeakref_eq c hn hl hwi hk, this]
+    rw [weakref_in_slots_iff c hn hb hl hwi, addsWeakref_eq c hn hwi, this]
 
 theorem dict_not_in_slots (c : Case) (hn : WFNames c) (hb : WFBody c) : (slotNames c).contains "__dict__" = false := by
   cases h : (slotNames c).contains "__dict__" with
